@@ -666,6 +666,10 @@ def main(tier: str, selftest_cases: int = 0) -> int:
                         "verdict": verdict})
             break
     construction_order(rep, tier)
+    # memoised functions may only conflate calls they cannot tell apart (engine/memokeys.py)
+    from engine import memokeys
+
+    memokeys.check(rep, [(CONV, "measured.conversions"), (INIT, "measured")], families.REPLAY_IMPORTS)
     rep.functions.update(["measured.conversions.equate", "measured.conversions.translate",
                           "measured.conversions.convert", "measured.conversions._plan_conversion",
                           "measured.conversions._find_path", "measured.conversions._inline_paths"])
